@@ -474,10 +474,12 @@ def judge_history(h, tr, m, failures, dist):
             return nontrivial
         # 3. size of the retrieved set
         sizes = tr["batches"]
-        if sizes is None or m["log"][:len(sizes)] != sizes[:len(m["log"])]:
+        nd = c2 // nsrc
+        if sizes is None or m["log"][:nd] != sizes[:nd]:
             failures.append(dict(b, signature="c16:sample-size", what="sizes of the simulations drawn "
                                  "differ from the per-quantity size if set, else the global one",
-                                 impl=sizes, expected=m["log"], clause="configured sample size"))
+                                 impl=sizes[:nd] if sizes else None, expected=m["log"][:nd],
+                                 clause="configured sample size"))
             return nontrivial
         want = sizes[rec["sid"]]
         if (tr["everywhere"] and len(rec["samples"]) != want) or len(rec["samples"]) > want:
